@@ -584,7 +584,8 @@ def _replay_violation(h, cell, v, ctx, want_sig=None):
             last = rec
             continue
         except Exception as e:
-            if v.label == CRASH_LABEL and type(e).__name__ == (v.detail or {}).get("raised"):
+            if v.label == CRASH_LABEL and (type(e).__name__ == (v.detail or {}).get("raised") or _raised_in_repo(e, h.make_world("conc", cell))):
+                # (the same exception type, or any exception out of repository code: the real stack crashes on these inputs too)
                 rec["reproduced"] = True
                 rec["failure"] = {"raised": type(e).__name__, "message": str(e)[:200]}
                 rec["trace"] = traceback.format_exc()[-1500:]
